@@ -540,3 +540,52 @@ func init() {
 		return out
 	})
 }
+
+// staleSlotProgram: calls in sequence (statements, operands of one expression, arguments) whose frames occupy the same
+// stack cells: first functions with locals of narrow integer / string / bool types, then functions whose locals are
+// declared from untyped constants (x := 200) and then operated on. A local starts fresh in every activation, so its
+// type is the constant's default type (int) whatever an earlier call left in that cell.
+func staleSlotProgram(r *rand.Rand, id string) *Prog {
+	p := &Prog{ID: id, Pkg: "main", Main: "Main"}
+	nslots := 2 + r.Intn(4)
+	narrowTys := []*Ty{TUint8, TInt8, TUint32, TString, TBool}
+	var nb, wb []*S
+	var sum *E
+	for i := 0; i < nslots; i++ {
+		t := narrowTys[r.Intn(len(narrowTys))]
+		name := fmt.Sprintf("n%d", i)
+		var init *E
+		switch t.K {
+		case "string":
+			init = sS("zz")
+		case "bool":
+			init = &E{K: "bool", Ty: TBool, B: true}
+		default:
+			init = lit(t, map[string]int64{"uint8": 250, "int8": 100, "uint32": 4000000000}[t.K])
+		}
+		nb = append(nb, &S{K: "decl", Names: []string{name}, DeclTy: t, VarForm: true, Exprs: []*E{init}})
+		wname := fmt.Sprintf("w%d", i)
+		k := []int64{200, 100, 2000000000, 127, 255}[r.Intn(5)]
+		wb = append(wb, dcl(wname, lit(TInt, k)), &S{K: "opassign", Lhs: []*E{v(wname, TInt)}, Op: "+", E: lit(TInt, k)})
+		if sum == nil {
+			sum = v(wname, TInt)
+		} else {
+			sum = bin("+", TInt, sum, v(wname, TInt))
+		}
+	}
+	nb = append(nb, ret(bin("+", TInt, v("k", TInt), lit(TInt, 1))))
+	wb = append(wb, pr(sS("wide"), sum), ret(bin("+", TInt, sum, v("k", TInt))))
+	p.Funcs = append(p.Funcs,
+		&Func{Name: "narrow", Params: []string{"k"}, PTypes: []*Ty{TInt}, Results: []*Ty{TInt}, Body: nb},
+		&Func{Name: "wide", Params: []string{"k"}, PTypes: []*Ty{TInt}, Results: []*Ty{TInt}, Body: wb})
+	call := func(fn string, k int64) *E { return &E{K: "call", Fn: fn, Ty: TInt, NRes: 1, Args: []*E{lit(TInt, k)}} }
+	body := []*S{
+		pr(sS("a"), call("wide", 1)),
+		pr(sS("b"), call("narrow", 2), call("wide", 3)),
+		pr(sS("c"), bin("+", TInt, call("narrow", 4), call("wide", 5))),
+		{K: "for", Init: dcl("i", lit(TInt, 0)), Cond: bin("<", TBool, v("i", TInt), lit(TInt, 2)), Post: &S{K: "incdec", Lhs: []*E{v("i", TInt)}, D: 1}, Body: []*S{
+			{K: "assign", Lhs: []*E{{K: "blank", Ty: TInt}}, Exprs: []*E{call("narrow", 6)}}, pr(sS("d"), call("wide", 7))}},
+	}
+	p.Funcs = append(p.Funcs, &Func{Name: "Main", Body: body})
+	return p
+}
